@@ -565,6 +565,161 @@ impl Ctx {
     }
   }
 
+  /// `from_alias_id` with an arbitrary alias id string and a valid network name. A refusal (panic) is judged only
+  /// when the alias id is "0x" + 64 hex digits; whatever is returned is a DID "built from a network name" and must
+  /// be a normal-form DID on exactly that network, with the bytes the alias id spells if it spells any.
+  fn alias_case(&mut self, alias: &str, kind: &str, name: &str, nn: &NetworkName) {
+    self.rep.eval();
+    self.rep.inc("alias_shape_checks");
+    let spelled = alias_tag(alias);
+    let expected = spelled.map(|t| Model { net: name.to_string(), tag: t });
+    let netclass = if name == "iota" { "default" } else { "named" };
+    match catch(|| IotaDID::from_alias_id(alias, nn)) {
+      Err(p) => {
+        harness_bug(&p);
+        self.rep.distinct("nontrivial", &format!("alias|refused|{}|{}", kind, netclass));
+        if spelled.is_some() && alias.starts_with("0x") {
+          self.panic_viol("from_alias_id", &p, json!({"alias_id":alias,"network":name}));
+        } else {
+          self.rep.inc("from_alias_id_invalid_panicked");
+        }
+      }
+      Ok(v) => {
+        self.rep.inc("alias_shape_returned");
+        if spelled.is_none() {
+          self.rep.inc("from_alias_id_nontag_returned");
+        }
+        self.rep.distinct("nontrivial", &format!("alias|returned|{}|{}|{}", kind, netclass, spelled.is_some()));
+        let input = format!("from_alias_id({:?}, {:?})", alias, name);
+        let m = self.check_value("from_alias_id", "parse", &input, &v, expected.as_ref());
+        // "... and a network name exposes ... that name": independent of what the alias id looks like
+        let got_net = catch(|| v.network_str().to_string()).ok();
+        if got_net.as_deref() != Some(name) || m.as_ref().is_some_and(|m| m.net != name) {
+          self.rep.violation(
+            "from_alias_id-exposes-other-network",
+            &format!("from_alias_id({:?}, {:?}) returned {:?} whose network is {:?}, not the network name it was given", alias, name, v.to_string(), got_net),
+            json!({"alias_id":alias,"network":name,"held":v.to_string(),"kind":kind}),
+          );
+        }
+      }
+    }
+  }
+
+  /// A network name that is NOT 1-6 of [a-z0-9] but was accepted through `route` is handed to the builders.
+  /// The statement leaves no correct outcome (a normal-form DID cannot carry that name), so a panic, a value out
+  /// of normal form and a value on another network are all reported, under signatures carrying the route.
+  fn accepted_invalid_name_builders(&mut self, route: &'static str, held: &str, nn: &NetworkName, tag: &[u8; 32]) {
+    let alias = format!("0x{}", hex_lower(tag));
+    for b in ["new", "placeholder", "from_alias_id"] {
+      self.rep.eval();
+      self.rep.inc("invalid_name_builder_calls");
+      let r = catch(|| match b {
+        "new" => IotaDID::new(tag, nn),
+        "placeholder" => IotaDID::placeholder(nn),
+        _ => IotaDID::from_alias_id(&alias, nn),
+      });
+      let case = json!({"route":route,"network":held,"tag":hex_lower(tag),"builder":b});
+      // `placeholder` is `new` with the zero tag: one signature for both
+      let sb = if b == "placeholder" { "new" } else { b };
+      match r {
+        Err(p) => {
+          harness_bug(&p);
+          self.rep.inc("invalid_name_builder_panicked");
+          self.rep.violation(
+            &format!("{}-panics-on-accepted-network-name:{}", sb, route),
+            &format!("IotaDID::{} panicked ({} at {}) on the NetworkName {:?} accepted through {}", b, p.msg, p.loc(), held, route),
+            case,
+          );
+        }
+        Ok(v) => {
+          self.rep.inc("invalid_name_builder_returned");
+          let input = format!("{}(0x{}, NetworkName {:?} accepted through {})", b, hex_lower(tag), held, route);
+          if self.check_value(b, "parse", &input, &v, None).is_some() {
+            // in normal form, hence on a network with a valid name, hence not on the one it was given
+            self.rep.violation(
+              &format!("{}-exposes-other-network-name:{}", sb, route),
+              &format!("IotaDID::{} with the NetworkName {:?} accepted through {} returned {:?}", b, held, route, v.to_string()),
+              case,
+            );
+          }
+        }
+      }
+    }
+  }
+
+  /// The serde route into `NetworkName`. `spelled` = the name when `text` is a JSON string the harness wrote itself.
+  /// Whatever is accepted must obey the rule (and be the spelled name); a spelled valid name must be accepted;
+  /// accepted names go to the builders.
+  fn netname_serde_case(&mut self, text: &str, spelled: Option<&str>, kind: &str, tag: &[u8; 32], rng: &mut Rng) {
+    self.rep.eval();
+    self.rep.inc("netname_serde_checks");
+    let via = rng.below(4);
+    let r = catch(|| -> Result<NetworkName, String> {
+      match via {
+        0 => NetworkName::from_json(text).map_err(|e| e.to_string()),
+        1 => NetworkName::from_json_slice(text.as_bytes()).map_err(|e| e.to_string()),
+        2 => match serde_json::from_str::<serde_json::Value>(text) {
+          Ok(v) => serde_json::from_value::<NetworkName>(v).map_err(|e| e.to_string()),
+          Err(e) => Err(e.to_string()),
+        },
+        _ => serde_json::from_str::<NetworkName>(text).map_err(|e| e.to_string()),
+      }
+    });
+    match r {
+      Err(p) => self.panic_viol("network-name-serde", &p, json!({"json":text})),
+      Ok(Ok(nn)) => {
+        self.rep.inc("netname_serde_accepted");
+        let held = match catch(|| (nn.as_ref().to_string(), nn.to_string())) {
+          Ok((a, b)) if a == b => a,
+          Ok(o) => {
+            self.rep.violation("network-name-altered:serde", &format!("NetworkName from {} shows as {:?}", text, o), json!({"json":text}));
+            return;
+          }
+          Err(p) => {
+            self.panic_viol("network-name-serde", &p, json!({"json":text}));
+            return;
+          }
+        };
+        let ok = valid_net(&held);
+        self.rep.distinct("nontrivial", &format!("nns|acc|{}|{}|{}", kind, held.len().min(9), ok));
+        if let Some(n) = spelled {
+          if n != held {
+            self.rep.violation(
+              "network-name-altered:serde",
+              &format!("NetworkName deserialised from {} holds {:?}", text, held),
+              json!({"json":text,"held":held}),
+            );
+          }
+        }
+        if ok {
+          self.rep.inc("netname_serde_accepted_valid");
+          self.built_case(tag, &held, &nn, rng);
+        } else {
+          self.rep.inc("netname_serde_accepted_invalid");
+          self.rep.violation(
+            "network-name-accepts-invalid:serde",
+            &format!("NetworkName deserialised from {} holds {:?}; the rule is 1-6 of [a-z0-9]", text, held),
+            json!({"json":text,"held":held}),
+          );
+          self.accepted_invalid_name_builders("serde", &held, &nn, tag);
+        }
+      }
+      Ok(Err(e)) => {
+        self.rep.inc("netname_serde_rejected");
+        self.rep.distinct("nontrivial", &format!("nns|rej|{}|{}", kind, spelled.map(|n| n.len().min(9)).unwrap_or(99)));
+        if let Some(n) = spelled {
+          if valid_net(n) {
+            self.rep.violation(
+              "network-name-rejects-valid:serde",
+              &format!("deserialising NetworkName from {} failed ({}) although {:?} is 1-6 of [a-z0-9]", text, e, n),
+              json!({"json":text,"error":e}),
+            );
+          }
+        }
+      }
+    }
+  }
+
   /// `NetworkName::try_from(name)`: accepted exactly for 1..6 of [a-z0-9]; accepted names feed the builders.
   fn netname_case(&mut self, name: &str, tag: &[u8; 32], rng: &mut Rng) {
     self.rep.eval();
@@ -691,6 +846,58 @@ const ODD_NETS: &[&str] = &[
   "", "abcdefg", "a-b", "a_b", "a.b", "sm r", "smr:x", "x:smr", "IOTAA", "\u{212a}mr", "sm\u{e9}", "\u{130}ota", "%61", "a/b", "main12345", "-", "0x",
 ];
 const ODD_METHODS: &[&str] = &["iot", "iotaa", "example", "io-ta", "", "iota:iota", "i\u{307}ota", "\u{130}OTA", "jwk", "0iota"];
+
+const EMBEDDED_NETS: &[&str] = &["smr", "iota", "rms", "0", "a", "abcdef", "iot", "iota1", "", "abcdefg", "SMR", "IOTA", "a-b", "did", "0x"];
+
+/// Every alias id shape around one tag text (`tagtext` = "0x" + 64 hex digits in some case): the bare tag, the tag
+/// with one or two segments in front / behind, whole DIDs, URL parts, whitespace, wrong lengths.
+fn alias_shapes(tagtext: &str, own: &str, out: &mut Vec<(String, &'static str)>) {
+  let hex = &tagtext[2..];
+  out.push((tagtext.to_string(), "tag"));
+  out.push((format!("0X{}", hex), "tag-0X"));
+  out.push((format!("0x{}", hex.to_ascii_uppercase()), "tag-upper"));
+  for e in EMBEDDED_NETS.iter().copied().chain([own]) {
+    out.push((format!("{}:{}", e, tagtext), "net:tag"));
+    out.push((format!("{}:{}", e.to_ascii_uppercase(), tagtext), "NET:tag"));
+    out.push((format!("{}:{}", tagtext, e), "tag:net"));
+    out.push((format!("{}:{}:{}", e, own, tagtext), "net:own:tag"));
+    out.push((format!("{}:{}:{}", own, e, tagtext), "own:net:tag"));
+    out.push((format!("iota:{}:{}", e, tagtext), "iota:net:tag"));
+    out.push((format!("{}:iota:{}", e, tagtext), "net:iota:tag"));
+    out.push((format!("did:iota:{}:{}", e, tagtext), "did:iota:net:tag"));
+    out.push((format!("{}:{}/p", e, tagtext), "net:tag+suffix"));
+    out.push((format!("{}:{}#f", e, tagtext), "net:tag+suffix"));
+    out.push((format!(" {}:{}", e, tagtext), "ws+net:tag"));
+    out.push((format!("{}:{}", e, &tagtext[..64]), "net:shorttag"));
+    out.push((format!("{}:{}0", e, tagtext), "net:longtag"));
+    out.push((format!("{}:{}", e, hex), "net:no0x"));
+  }
+  out.push((format!(":{}", tagtext), "empty:tag"));
+  out.push((format!("::{}", tagtext), "empty:tag"));
+  out.push((format!("{}:", tagtext), "tag:empty"));
+  out.push((format!("{}:{}", tagtext, tagtext), "tag:tag"));
+  out.push((format!("did:iota:{}", tagtext), "did:iota:tag"));
+  out.push((format!("iota:{}", tagtext.to_ascii_uppercase()), "net:TAG"));
+  for sfx in SUFFIXES {
+    out.push((format!("{}{}", tagtext, sfx), "tag+suffix"));
+  }
+  for w in WS {
+    out.push((format!("{}{}", w, tagtext), "ws+tag"));
+    out.push((format!("{}{}", tagtext, w), "tag+ws"));
+  }
+  for n in [0usize, 1, 2, 32, 62, 63] {
+    out.push((format!("0x{}", &hex[..n]), "taglen"));
+  }
+  out.push((format!("0x{}0", hex), "taglen"));
+  out.push((format!("0x{}00", hex), "taglen"));
+  out.push((hex.to_string(), "no0x"));
+  out.push((format!("0x0x{}", hex), "0x0x"));
+  out.push((format!("0x{}g{}", &hex[..31], &hex[32..]), "nonhex"));
+  out.push((format!("0x{}:{}", &hex[..31], &hex[32..]), "colon-in-hex"));
+  out.push((format!("0x{}:{}", &hex[..32], &hex[32..]), "colon-in-hex"));
+  out.push((format!("smr:0x{}:{}", &hex[..31], &hex[32..]), "colon-in-hex"));
+  out.push((String::new(), "empty"));
+}
 
 /// One family: a model, every valid spelling of it, neighbours, mutations; all paths; pairwise checks.
 fn family(cx: &mut Ctx, rng: &mut Rng) {
@@ -845,17 +1052,20 @@ fn family(cx: &mut Ctx, rng: &mut Rng) {
     };
     cx.string_case(&s, &format!("mut:{}", k));
   }
-  // from_alias_id with something that is not an alias id: a refusal by panic is outside this property
-  if rng.chance(1, 4) {
+  // from_alias_id with something that is not (only) an alias id: a refusal by panic is outside this property,
+  // a returned value is judged (normal form, on the network that was given)
+  if rng.chance(1, 2) {
     if let Ok(Ok(nn)) = catch(|| NetworkName::try_from(name.clone())) {
-      let bad = format!("0x{}", &hex[..*rng.pick(&[0usize, 2, 62, 63])]);
-      match catch(|| IotaDID::from_alias_id(&bad, &nn)) {
-        Err(_) => cx.rep.inc("from_alias_id_invalid_panicked"),
-        Ok(v) => {
-          let input = format!("from_alias_id({:?}, {:?})", bad, name);
-          cx.check_value("from_alias_id", "parse", &input, &v, None);
-        }
+      let tagtext = if rng.bool() { lower.clone() } else { format!("0x{}", flip_case(&hex, rng, 0)) };
+      let mut shapes = Vec::new();
+      alias_shapes(&tagtext, &name, &mut shapes);
+      for _ in 0..3 {
+        let (a, k) = shapes[rng.usize(shapes.len())].clone();
+        cx.alias_case(&a, k, &name, &nn);
       }
+      // a random valid network in front of the tag
+      let e = random_valid_net(rng);
+      cx.alias_case(&format!("{}:{}", e, tagtext), "net:tag", &name, &nn);
     }
   }
   cx.close_family(rng);
@@ -942,7 +1152,11 @@ fn main() {
      spellings, neighbours, 10 mutations (tag length, non-hex, prefix, method, network, segments, path/query/fragment, whitespace, \
      truncation, byte/char insertions), (b) an exhaustive product scheme x method x network x prefix x tag length x tag case x suffix x \
      whitespace around one tag, (c) NetworkName::try_from over all 1-2 character names and random longer ones, accepted names going \
-     through new/placeholder/from_alias_id. non-trivial+distinct = decided cases classed by (outcome, path, spelling/mutation kind, \
+     through new/placeholder/from_alias_id, (d) from_alias_id over every alias id shape (bare tag, one or two network segments in \
+     front of / behind the tag, whole DIDs, URL parts, whitespace, wrong lengths) x default and named networks: whatever is returned must be \
+     a normal-form DID on the network that was given, (e) the serde route into NetworkName (the names of (c) as JSON strings, escaped and \
+     padded spellings, non-string JSON, random names): whatever is accepted must be 1-6 of [a-z0-9] and work with the builders. \
+     non-trivial+distinct = decided cases classed by (outcome, path, spelling/mutation kind, \
      network class) resp. grid coordinates resp. (name length, validity)",
   );
   let mut rng = args.rng(17);
@@ -998,25 +1212,112 @@ fn main() {
     cx.close_family(&mut rng);
   }
 
-  // ---- observation only: a NetworkName obtained through serde is not validated by the type; whatever
-  //      `new` returns for it must still be a normal-form DID, a refusal by panic is not judged here.
-  if args.shard == 0 {
-    for name in ["SMR", "abcdefg", "", "a-b", "a/b", "iota:smr", "smr\n"] {
-      let j = serde_json::to_string(name).expect("json");
-      if let Ok(Ok(nn)) = catch(|| NetworkName::from_json(&j)) {
-        cx.rep.inc("netname_serde_invalid_accepted");
-        let tag = [0x5au8; 32];
-        match catch(|| IotaDID::new(&tag, &nn)) {
-          Err(_) => cx.rep.inc("new_with_unvalidated_name_panicked"),
-          Ok(v) => {
-            cx.rep.inc("new_with_unvalidated_name_returned");
-            let input = format!("new(0x5a.., deserialised NetworkName {:?})", name);
-            cx.check_value("new", "parse", &input, &v, None);
+  // ---- (d) from_alias_id: every alias id shape x default and named networks (the tags ignore the seed)
+  {
+    let own_nets = ["iota", "smr", "rms", "a", "0", "iot", "iota1", "abc123", "zzzzzz"];
+    let rounds = sc(4);
+    // reduced-scale runs (Miri/ASan) take every 7th shape: 7 is coprime to the period of the shape list, so every kind stays covered
+    let dstride = stride.min(7);
+    let mut idx: u64 = 0;
+    for round in 0..rounds {
+      let mut tag = [0u8; 32];
+      for (i, b) in tag.iter_mut().enumerate() {
+        *b = match round % 4 {
+          0 => [0xab, 0xcd, 0xef, 0x01, 0x9a, 0xf0, 0x5b][i % 7],
+          1 => 0,
+          2 => 0xff,
+          _ => (i as u8).wrapping_mul(37).wrapping_add(round as u8),
+        };
+      }
+      let hex = hex_lower(&tag);
+      let tagtext = if round % 2 == 0 { format!("0x{}", hex) } else { format!("0x{}", hex.chars().enumerate().map(|(i, c)| if i % 3 == 0 { c.to_ascii_uppercase() } else { c }).collect::<String>()) };
+      for own in own_nets {
+        let nn = match catch(|| NetworkName::try_from(own.to_string())) {
+          Ok(Ok(nn)) => nn,
+          _ => {
+            cx.rep.violation("network-name-rejects-valid", &format!("NetworkName::try_from({:?}) failed", own), json!({"name":own}));
+            continue;
           }
+        };
+        let mut shapes = Vec::new();
+        alias_shapes(&tagtext, own, &mut shapes);
+        for (a, k) in &shapes {
+          idx += 1;
+          if idx % dstride != 0 || !args.mine(idx / dstride) {
+            continue;
+          }
+          cx.alias_case(a, k, own, &nn);
         }
+        cx.close_family(&mut rng);
       }
     }
-    cx.close_family(&mut rng);
+    cx.rep.note("alias_shape_space", json!(idx));
+  }
+
+  // ---- (e) the serde route into NetworkName: the names of (c) as JSON strings, escaped spellings, non-string JSON
+  {
+    let mut k: u64 = 0;
+    for name in &names {
+      k += 1;
+      if k % nstride != 0 || !args.mine(k / nstride) {
+        continue;
+      }
+      let tag = random_tag(&mut rng);
+      let j = serde_json::to_string(name).expect("json");
+      cx.netname_serde_case(&j, Some(name), "string", &tag, &mut rng);
+      cx.close_family(&mut rng);
+    }
+    let longer: &[&str] = &[
+      "BAD NAME!!", "abcdefg", "abcdefgh", "aaaaaaaaaaaaaaaaaaaaaaaaaaaaaaaaaaaaaaaaaaaaaaaaaaaaaaaaaaaaaaaaaaaa", "SMR", "Iota", "IOTA", "iota:smr", "smr:iota", "smr:", ":smr",
+      "a-b", "a_b", "a.b", "sm r", " smr", "smr ", "smr\n", "smr\0", "a/b", "a?b", "a#b", "%61", "sm\u{e9}", "\u{fc}n\u{ef}", "\u{3b1}\u{3b2}\u{3b3}", "\u{430}\u{431}",
+      "\u{661}\u{662}\u{663}", "\u{ff10}\u{ff11}", "\u{212a}mr", "\u{17f}mr", "\u{130}ota", "\u{df}", "\u{1f600}", "0x", "did", "did:iota", "smr:0x00", "\"smr\"", "\\",
+      "iota", "smr", "rms", "atoi", "main", "a", "0", "abcdef", "012345", "a1b2c3", "zzzzzz", "iota1", "iot",
+    ];
+    let mut idx: u64 = 0;
+    for name in longer {
+      idx += 1;
+      if !args.mine(idx) {
+        continue;
+      }
+      let tag = random_tag(&mut rng);
+      let j = serde_json::to_string(name).expect("json");
+      cx.netname_serde_case(&j, Some(name), "string", &tag, &mut rng);
+      // the same name with every character written as a \uXXXX escape, and with JSON whitespace around it
+      let esc: String = std::iter::once("\"".to_string())
+        .chain(name.encode_utf16().map(|u| format!("\\u{:04x}", u)))
+        .chain(std::iter::once("\"".to_string()))
+        .collect();
+      cx.netname_serde_case(&esc, Some(name), "escaped", &tag, &mut rng);
+      cx.netname_serde_case(&format!(" \n{}\t ", j), Some(name), "padded", &tag, &mut rng);
+      cx.close_family(&mut rng);
+    }
+    let non_strings: &[&str] = &[
+      "null", "true", "false", "0", "123", "-1", "1.5", "1e3", "[]", "[\"smr\"]", "[\"BAD NAME!!\"]", "[[\"smr\"]]", "[\"smr\",\"iota\"]", "{}", "{\"0\":\"smr\"}",
+      "{\"NetworkName\":\"smr\"}", "{\"smr\":null}", "", " ", "smr", "'smr'", "\"smr", "smr\"", "\"smr\" x", "\"smr\"\"smr\"", "\"smr\",", "\"\\x\"", "\"\\ud800\"", "\"sm\nr\"",
+    ];
+    for text in non_strings {
+      idx += 1;
+      if !args.mine(idx) {
+        continue;
+      }
+      let tag = random_tag(&mut rng);
+      cx.netname_serde_case(text, None, "non-string", &tag, &mut rng);
+      cx.close_family(&mut rng);
+    }
+    // random names, valid and invalid, like the second half of (c)
+    let n_ser = sc(if args.thorough { 400_000 } else { 16_000 });
+    for _ in 0..(n_ser / nsh).max(1) {
+      let tag = random_tag(&mut rng);
+      let name: String = if rng.chance(1, 2) {
+        random_valid_net(&mut rng)
+      } else {
+        let n = rng.usize(9);
+        (0..n).map(|_| if rng.chance(5, 6) { (*rng.pick(NET_CHARS) as char).to_string() } else { rng.pick(&alphabet).clone() }).collect()
+      };
+      let j = serde_json::to_string(&name).expect("json");
+      cx.netname_serde_case(&j, Some(&name), "string", &tag, &mut rng);
+      cx.close_family(&mut rng);
+    }
   }
 
   cx.rep.note("scale", json!(scale));
